@@ -55,7 +55,7 @@ fn generate(seed: u64, tier: Tier) -> Scenario {
         min_steps: 3,
         max_steps: if tier.thorough() { 14 } else { 9 },
         interrupts: true,
-        crash_empty: false,
+        crash_empty: seed % 2 == 0,
         deletes: true,
         thorough: false,
         small_blocks: r.chance(1, 2),
